@@ -241,11 +241,13 @@ def check(c):
             sib.reinitialize_parameters()
             cur = snap(module)
             require(state.rbm_am is module and ptrs(state.rbm_am) == ptrs(module), "shared-module:amplitude-detached", "after a sibling state reinitialised the shared module, this state's amplitude network is no longer that module")
-            state.fit(data, epochs=1, pos_batch_size=2, lr=0.05, callbacks=[guard_], **kw_)
+            # (weight decay: every non-zero weight moves whatever the data gradient is - on a one-qubit model the CD gradient of a batch is
+            # exactly zero whenever the chain returns to the data, and parameters that legitimately stay put are no violation)
+            state.fit(data, epochs=1, pos_batch_size=2, lr=0.05, callbacks=[guard_], optimizer=torch.optim.SGD, optimizer_args={"weight_decay": 0.5}, **kw_)
             if div_[0]:
                 state.stop_training = False
                 return {"nontrivial": False, "excluded": 1, "labels": sorted(set(labels + ["diverged"]))}
-            require(not same(snap(module), cur), "shared-module:training-misses-current-parameters",
+            require(not same(snap(module), cur) or all(float(v_.abs().max()) == 0.0 for k_, v_ in cur.items() if "weights" in k_ and v_.numel()), "shared-module:training-misses-current-parameters",
                     "after a sibling state built on the same module reinitialised it, training this state no longer moves the module's current parameters")
             if t == "density":
                 aux0 = state.rbm_ph.aux_bias.detach().clone()
